@@ -977,13 +977,15 @@ package badger
 // length and checksum, syncs and closes the new file without error, and only then renames it
 // over the MANIFEST.
 //@ func helpRewrite
-//@   props C17 C08
+//@   props C17 C08 C10
 //@   light
 //@   assert[whole-manifest] before call Marshal : called(asChanges#1) && set.Changes == ret(asChanges#1)
 //@   assert[length-recorded] before call PutUint32#1 : arg2 == uint32(len(ret0(Marshal#1)))
 //@   assert[checksum-of-changes] before call Checksum : arg0 == ret0(Marshal#1)
 //@   assert[synced-and-closed-before-rename] before call Rename : called(Write#1) && ret1(Write#1) == nil && called(Sync#1) && ret(Sync#1) == nil && called(Close#4) && ret(Close#4) == nil
 //@   assert[creations-counted] before return : result2 == nil ==> result1 == old(len(m.Tables))
+//@   assert[directory-synced-after-rename] before call syncDir : called(Rename#1) && ret(Rename#1) == nil && arg0 == dir
+//@   assert[success-only-after-directory-sync] before return : result2 == nil ==> called(syncDir#1) && ret(syncDir#1) == nil
 
 // ReplayManifestFile: a change set is applied only after its payload was read in full and its
 // checksum matched; reading stops at the first incomplete record, and the returned truncation
@@ -1726,6 +1728,14 @@ package badger
 //@   props C10
 //@   light
 //@   assert[sync-current-file] before call Sync : vlog.opt.SyncWrites && arg0 == curlf.MmapFile
+
+// compactBuildTables: the directory is synced once every table builder finished without error,
+// before the new tables are handed to the caller (who records them in the MANIFEST).
+//@ func (*levelsController).compactBuildTables
+//@   props C10 C08
+//@   light
+//@   assert[directory-synced-after-builders] before call syncDir : called(Finish#1) && ret(Finish#1) == nil && arg1 == s.kv.opt.Dir
+//@   assert[tables-only-after-sync] before return : result2 == nil ==> called(syncDir#1) && ret(syncDir#1) == nil
 
 // buildChangeSet: a compaction's change set creates every new table on the next level with its
 // own id, key id and compression and deletes every input table (in-memory top tables excepted).
